@@ -2,6 +2,7 @@
 import random
 from typing import Iterator
 
+import core
 from core import Case, Prop, SelfCheckFailure
 from gen import hx, unhx, pool, out_pool, rbytes
 
@@ -29,19 +30,18 @@ def op_tc_new(a):
 
 def op_tc_pack(a):
     t = _tc(a)
-    raw = bytes(t.pack())
+    # (packs twice, the caller modifying the first returned buffer in between)
+    raw = core.pack_stable(t, "PusTc.pack()")
     if len(raw) != t.packet_len:
         raise SelfCheckFailure(f"len(pack())={len(raw)} != packet_len={t.packet_len}")
-    if bytes(t.pack()) != raw:
-        raise SelfCheckFailure("pack() twice gives different octets")
     t2 = PusTc.unpack(raw)
     if not (t2 == t) or not (t == t2):
         raise SelfCheckFailure("unpack(pack(tc)) != tc under ==")
-    if _tc_fields(t2) != _tc_fields(t):
+    if core.ISOLATION.check("PusTc", t2, _tc_fields) != _tc_fields(t):
         raise SelfCheckFailure("unpack(pack(tc)) has different field values")
-    if bytes(t2.pack()) != raw:
+    if core.pack_stable(t2, "PusTc.pack() of a decoded telecommand") != raw:
         raise SelfCheckFailure("re-packing the decoded telecommand does not reproduce the octets")
-    sp = bytes(t.to_space_packet().pack())
+    sp = core.pack_stable(t.to_space_packet(), "PusTc.to_space_packet().pack()")
     return {"raw": hx(raw), "sp_raw": hx(sp), "packet_len": int(t.packet_len), "crc_ok": bool(check_pus_crc(raw))}
 
 
@@ -52,9 +52,11 @@ def op_tc_unpack(a):
     # (before pack(), which recomputes the stored checksum)
     if t.crc16 is not None and bytes(t.crc16) != raw[n - 2:n]:
         raise SelfCheckFailure("crc16 of the decoded packet is not the packet's own trailer")
-    if bytes(t.pack()) != raw[:n]:
+    # telecommands decoded by earlier calls must still show what they showed then
+    f = core.ISOLATION.check("PusTc", t, _tc_fields)
+    if core.pack_stable(t, "PusTc.pack() of a decoded telecommand") != raw[:n]:
         raise SelfCheckFailure("pack(unpack(b)) != b[:packet_len]")
-    return _tc_fields(t)
+    return f
 
 
 def op_pus_crc_check(a):
@@ -150,6 +152,14 @@ class C02(Prop):
                     yield Case({"op": "tc_unpack", "raw": hx(bytes(b))}, "invalid", tag="bit-flip")
                     yield Case({"op": "pus_crc_check", "raw": hx(bytes(b))}, "valid", tag="bit-flip")
                 yield Case({"op": "pus_crc_check", "raw": hx(raw)}, "valid", tag="intact")
+        # back-to-back decodes of telecommands that differ in every field (an object decoded earlier must not follow)
+        for _ in range(1000 if thorough else 100):
+            a, b = rand_args(rng), rand_args(rng)
+            for k in ("service", "subservice"):
+                b[k] = a[k] ^ 0xFF
+            b.update(apid=a["apid"] ^ 0x7FF, count=a["count"] ^ 0x3FFF, source_id=a["source_id"] ^ 0xFFFF, ack=a["ack"] ^ 0xF)
+            for x in (a, b, a):
+                yield Case({"op": "tc_unpack", "raw": hx(bytes(_tc(x).pack()) + rbytes(rng, 2))}, "valid", tag="complement-pair")
         # exhaustive secondary-header octets (CRC recomputed so only the field semantics decide)
         a = rand_args(rng, 4)
         raw = bytes(_tc(a).pack())
